@@ -203,42 +203,7 @@ Proof.
            ++ destruct Hin as [<-|Hin]; [assumption|]. eapply IHp; eassumption.
 Qed.
 
-(* the long instrument behind readers: for every history, every reported point passes the check *)
-Theorem series_meets_spec_long : forall s c temps l,
-  0 <= s -> sorted (c_bounds c) ->
-  Forall (valid_sop temps) l ->
-  Forall (fun op => match op with SRec v => Z.abs v <= 2 ^ 53 | SCollect _ => True end) l ->
-  Z.of_nat (n_rec l) < U64 ->
-  spec_series KLong s c temps l
-    (map (option_map point_of) (run_sops (long_ops s) c temps (sstate0 (length temps)) l)) = [].
-Proof.
-  intros s c temps l Hs Hsorted Hvalid Hvals Hn. unfold spec_series.
-  apply Forall2_check_all. apply Forall2_map_r.
-  pose proof (series_lossless_lemma (long_ops s) c (xadd_exact_long s) temps l Hvalid) as Hok.
-  pose proof (expect_sops_values temps l (repeat [] (length temps)) [] (fun v => Z.abs v <= 2 ^ 53)) as Hv.
-  assert (Hv' : Forall (fun e => Forall (fun v => Z.abs v <= 2 ^ 53) (snd e))
-                       (expect_sops temps (repeat [] (length temps)) [] l)).
-  { apply Hv; [apply Forall_forall; intros p Hin; apply repeat_spec in Hin; subst; constructor|constructor|exact Hvals]. }
-  pose proof (expect_sops_lengths temps l (repeat [] (length temps)) [] (n_rec l)) as Hl.
-  assert (Hl' : Forall (fun e => (length (snd e) <= n_rec l)%nat) (expect_sops temps (repeat [] (length temps)) [] l)).
-  { apply Hl; [apply Forall_forall; intros p Hin; apply repeat_spec in Hin; subst; cbn [length]; lia|cbn [length]; lia]. }
-  pose proof (expect_sops_names temps l (repeat [] (length temps)) []) as Hnm.
-  eapply Forall2_impl_in; [exact Hok|].
-  intros [name xs] out Hin Hout. unfold ok in Hout. cbn [snd] in Hout.
-  rewrite Forall_forall in Hv', Hl', Hnm.
-  specialize (Hv' _ Hin). specialize (Hl' _ Hin). cbn [snd] in Hv', Hl'.
-  unfold check_collect. destruct out as [h|]; cbn [option_map].
-  - subst h. apply (check_point_agg KLong s c (mkX name (c_rmm c) false) xs); try assumption; try reflexivity.
-    + lia.
-    + apply key_exact_long; [exact Hs|]. rewrite Forall_forall in Hv'. exact Hv'.
-    + intros v Hv0. apply long_within_sentinels. rewrite Forall_forall in Hv'. specialize (Hv' v Hv0).
-      change (2 ^ 63) with 9223372036854775808. change (2 ^ 53) with 9007199254740992 in Hv'. lia.
-  - subst xs. reflexivity.
-Qed.
-
 (* ------------------------------------------------------------------ the defaults are the OpenTelemetry defaults *)
-Definition otel_default_bounds : list Z := [0; 5; 10; 25; 50; 75; 100; 250; 500; 750; 1000; 2500; 5000; 7500; 10000].
-
 Theorem default_bounds_lemma :
   map (to_scale 0) kHistDefaultBoundsDouble = otel_default_bounds /\
   map (to_scale 0) kHistDefaultBoundsLong = otel_default_bounds /\
@@ -249,14 +214,23 @@ Proof.
   split; [apply sortedb_sorted; vm_compute; reflexivity|]. split; reflexivity.
 Qed.
 
-(* the default boundaries stay sorted integers at every scale the glue may pick *)
-Lemma to_scale_mono : forall s a b, 0 <= s -> 0 <= snd a -> 0 <= snd b ->
-  to_scale 0 a <= to_scale 0 b -> to_scale s a <= to_scale s b.
+(* at every scale the glue may pick, the model's configuration is the one the SPEC checks against *)
+Lemma to_scale_shift : forall s d, 0 <= snd d -> to_scale s d = Z.shiftl (to_scale 0 d) s.
 Proof.
-  intros s [ma ea] [mb eb] Hs Ha Hb H. unfold to_scale in *. cbn [fst snd] in *.
-  rewrite !Z.shiftl_mul_pow2 in * by lia. rewrite !Z.pow_add_r by lia.
-  assert (0 < 2 ^ s) by (apply pow2_pos; exact Hs).
-  replace (ea + 0) with ea in H by lia. replace (eb + 0) with eb in H by lia. nia.
+  intros s [m e] He. unfold to_scale. cbn [fst snd] in *. rewrite Z.add_0_r, Z.shiftl_shiftl by exact He. reflexivity.
+Qed.
+
+Theorem eff_cfg_spec : forall k s c, eff_cfg (ops_of k s) c = spec_cfg s c.
+Proof.
+  intros k s [x|]; [reflexivity|]. unfold eff_cfg, spec_cfg.
+  destruct default_bounds_lemma as (Hd & Hl & _ & Hrd & Hrl).
+  assert (Hnn : forall L, forallb (fun d => 0 <=? snd d) L = true ->
+                  map (to_scale s) L = map (fun b => Z.shiftl b s) (map (to_scale 0) L)).
+  { intros L HL. rewrite map_map. apply map_ext_in. intros d Hin.
+    rewrite forallb_forall in HL. specialize (HL d Hin). apply Z.leb_le in HL. apply to_scale_shift. exact HL. }
+  destruct k; cbn [ops_of long_ops dbl_ops o_defb o_defrmm].
+  - rewrite Hnn by (vm_compute; reflexivity). rewrite Hl, Hrl. reflexivity.
+  - rewrite Hnn by (vm_compute; reflexivity). rewrite Hd, Hrd. reflexivity.
 Qed.
 
 (* F8c: Diff does not compute the sum *)
